@@ -4,39 +4,61 @@ import YaegiVerif.Model.Method
 namespace YaegiVerif.Expected.C05
 open YaegiVerif.Method
 
-/-- since ff01288 ("test the clauses of a switch in source order") the pre-order pass leaves the
-    clause list alone and the post-order pass sends a failed clause to the next clause with a test,
-    the last one to the default clause -/
+/-- the source after the repairs ff01288 (clauses of a switch in source order), 4f1c6ee (promoted
+    method at the shallowest depth), 837b81e (several methods at the shallowest depth: ambiguous),
+    efcbde2 (method depth compared with the field depth), a60b058 (fields promoted through embedded
+    fields only, shallowest first), 3081633 (receiver bound when the method value is made),
+    16a5ac7 (a value stored in an interface is copied) -/
 def facts : Facts :=
   { defaultSwap := false,
     clauseChain := .nextTest,
+    methodPick := .shallowest,
+    methodAmbiguityCheck := true,
+    fieldLoopEmbedOnly := true,
+    fieldPick := .shallowest,
+    containsNamesOnly := true,
+    methodWinsCond := "d >= 0 && d < len(ti)-1 => { goto tryMethods }",
+    ambiguousCond := "d == len(ti)-1",
+    fieldDepthMinus := 1,
+    recvBind := { atCreation := true, ptrToVal := .set, valToPtr := .slot, same := .set, call := .set },
+    ifaceCopies := true }
+
+/-- the values the facts had before those repairs (findings F04, F05, F05-1, F05-2, F05-3, F05-6,
+    F05-16, all fixed); only the `…_old_witness` theorems and regression examples refer to them -/
+def oldFacts : Facts :=
+  { defaultSwap := true,
+    clauseChain := .nextClause,
+    methodPick := .firstDfs,
+    methodAmbiguityCheck := false,
     fieldLoopEmbedOnly := false,
+    fieldPick := .firstDfs,
     containsNamesOnly := true,
     methodWinsCond := "d >= 0 && d < len(ti) => { goto tryMethods }",
     ambiguousCond := "d == len(ti)",
-    recvBind := { ptrToVal := .set, valToPtr := .set, same := .set } }
+    fieldDepthMinus := 0,
+    recvBind := { atCreation := false, ptrToVal := .set, valToPtr := .set, same := .set, call := .slot },
+    ifaceCopies := false }
 
-/-- the values the two switch facts had before ff01288 (finding F05-16); only
-    `typeswitch_default_swap_witness` refers to them -/
-def oldDefaultSwap : Bool := true
-def oldClauseChain : Chain := .nextClause
+def oldDefaultSwap : Bool := oldFacts.defaultSwap
+def oldClauseChain : Chain := oldFacts.clauseChain
 
 def unrecognised : List String := []
 
 def sourceHashes : List (String × String) :=
-  [("itype.lookupField", "79b6a1ad2d1bca07"),
+  [("itype.lookupField", "b887c6ab56003dec"),
    ("itype.fieldIndex", "20b35923c91324ca"),
    ("itype.lookupMethod", "8c093410929b12b2"),
-   ("itype.lookupMethod2", "0ca384a42b4d78db"),
+   ("itype.lookupMethod2", "db3f6f7deb62d763"),
    ("itype.getMethod", "7c8adb8c9829a9d1"),
    ("itype.methodDepth", "1d0e71e467a5ef05"),
+   ("itype.methodCount", "a61f4bc597b944e2"),
    ("itype.methods", "5ee74f81a5c4777a"),
    ("methodSet.contains", "4962c458fd56665c"),
    ("itype.implements", "e9e5c356951a363a"),
    ("lookupFieldOrMethod", "775975244d11efe2"),
-   ("matchSelectorMethod", "b1e1cee700cac56d"),
+   ("matchSelectorMethod", "289e249d29992d7c"),
    ("getDefault", "e432131cb00f89f6"),
-   ("typeAssert", "ab9567e8974b257b"),
+   ("typeAssert", "3464a4b803229c6c"),
    ("_case", "60fb01345bd252bd"),
    ("implementsInterface", "596e652087668932"),
    ("canAssertTypes", "4f6cf211377634a0"),
@@ -44,14 +66,14 @@ def sourceHashes : List (String × String) :=
    ("getMethodByName", "f50f4b6cbd60d2d3"),
    ("lookupMethodValue", "375ef5678906848e"),
    ("stripReceiverFromArgs", "bb4ae1a98125a1a0"),
-   ("genFunctionWrapper", "2865f1c325015a31"),
+   ("genFunctionWrapper", "d3025d79ab731dcf"),
    ("typecheck.typeAssertionExpr", "c9bf8687572eccaf"),
    ("genDestValue", "6d332c89aa45b5ab"),
-   ("genValueInterface", "ace589b21eb98d0d"),
+   ("genValueInterface", "1ef4b98ccbd7c706"),
    ("genValueRecv", "a3dad7fc975e9eb7"),
-   ("cfg.go case selectorExpr", "86bed37595933c73"),
+   ("cfg.go case selectorExpr", "768dfe88e453fb73"),
    ("cfg.go pre-order case switchStmt, typeSwitch", "773e4a50ec016090"),
    ("cfg.go post-order case switchStmt", "dd29a2c95d07e79f"),
-   ("genFunctionWrapper receiver binding", "96e4f6806432f9e4")]
+   ("genFunctionWrapper receiver binding", "f81cf9e7a65adbf0")]
 
 end YaegiVerif.Expected.C05
